@@ -129,13 +129,13 @@ def make_histories(ctx):
         raise Machinery("SpoolGen.tla produced only %d histories" % len(gen))
     settings = SETTINGS[:4] if ctx.quick() else SETTINGS
     hists = []
-    stride = ctx.pick(24, 8)
+    stride = ctx.pick(24, 16)
     for si, (bs, mb, se) in enumerate(settings):
         for i, names in enumerate(gen):
             if (i + si * 3 + ctx.seed) % stride == 0:
                 hists.append(dict(h=len(hists), bufsize=bs, maxbytes=mb, syncevery=se, ops=to_ops(names)))
     nshort = len(hists)
-    for i in range(ctx.pick(60, 600)):
+    for i in range(ctx.pick(60, 300)):
         bs, mb, se = settings[i % len(settings)]
         hists.append(dict(h=len(hists), bufsize=bs, maxbytes=mb, syncevery=se,
                           ops=random_ops(rng, rng.choice([15, 30, 60]))))
